@@ -3792,7 +3792,8 @@ class BoutMesh(Mesh):
                 jyseps2_1 = self.ny // 2
                 ny_inner = self.ny // 2
                 jyseps1_2 = self.ny // 2
-                jyseps2_2 = self.ny
+                # index of the last grid point (not one past it)
+                jyseps2_2 = self.ny_noguards - 1
             elif len(self.y_regions_noguards) == 2:
                 raise ValueError("Unrecognized topology with 2 y-regions")
             elif len(self.y_regions_noguards) == 3:
